@@ -199,6 +199,84 @@ func runC05(r *Run) {
 				}
 			}
 		}
+		if phi, isPhi := bt.Val.(*ssa.Phi); !okBound && bt.Op == "phi" && isPhi && phi.Parent() == f {
+			// the bound computed in place (its helper was inlined): until, except from + MaxOperationTimeDelta under
+			// from ≠ 0 ∧ until = 0
+			ff := r.E.Facts(f, ctx)
+			var fromS string
+			for _, c := range r.callsIn(f, "TimeValidator.Validate") {
+				if as := core.CallArgs(c.Common()); len(as) >= 3 && ff.TB.Of(as[2]).String() == bt.String() {
+					fromS = ff.TB.Of(as[1]).String()
+				}
+			}
+			untilS := strings.TrimSuffix(fromS, ".AnchorFrom") + ".AnchorUntil"
+			det += " [in-place form: from=" + short(fromS, 80) + "]"
+			if strings.HasSuffix(fromS, ".AnchorFrom") && core.MatchTerm(role.ParseSD+"(_, ?sd).AnchorFrom", ff.TB.Of(firstValidateFrom(r, f)), core.Bind{"sd": b["sd"]}) {
+				good, nDef, nUntil := true, 0, 0
+				has := func(set core.FactSet, a, op, bb string) bool {
+					for _, fc := range set {
+						if fc.Kind == "cmp" && fc.A != nil && fc.B != nil && fc.Op == op && fc.A.String() == a && fc.B.String() == bb {
+							return true
+						}
+					}
+					return false
+				}
+				for i, e := range phi.Edges {
+					et := ff.TB.Of(stripConv(e))
+					set := phiEdgeFacts(ff, phi, i)
+					switch {
+					case et.String() == untilS:
+						nUntil++
+						okU := func(st core.FactSet) bool {
+							return has(st, untilS, "!=", "0") || has(st, untilS, ">", "0") || has(st, fromS, "==", "0")
+						}
+						if !okU(set) {
+							// the two ways of not taking the default (from = 0; until ≠ 0) meet before the merge: judged per way
+							pred := phi.Block().Preds[i]
+							all := len(pred.Preds) > 0
+							for _, q := range pred.Preds {
+								st := core.FactSet{}
+								for k, v := range ff.In[q] {
+									st[k] = v
+								}
+								for _, fc := range ff.EdgeFacts(q, pred) {
+									st[fc.Key()] = fc
+								}
+								if !okU(st) {
+									all = false
+								}
+							}
+							if !all {
+								good = false
+								det = "until is passed on without from = 0 or until ≠ 0"
+							}
+						}
+					case et.Op == "bin" && et.Name == "+" && len(et.Args) == 2:
+						x, y := et.Args[0].String(), et.Args[1].String()
+						other := ""
+						if x == fromS {
+							other = y
+						} else if y == fromS {
+							other = x
+						}
+						if other == "" || !strings.HasSuffix(strings.TrimSuffix(other, ")"), "MaxOperationTimeDelta") {
+							good = false
+							det = "default bound is not from + MaxOperationTimeDelta: " + et.String()
+							continue
+						}
+						nDef++
+						if !(has(set, untilS, "==", "0") && (has(set, fromS, "!=", "0") || has(set, fromS, ">", "0"))) {
+							good = false
+							det = "the default bound is used without from ≠ 0 ∧ until = 0"
+						}
+					default:
+						good = false
+						det = "effective until has an operand that is neither until nor from + MaxOperationTimeDelta: " + et.String()
+					}
+				}
+				okBound = good && nDef == 1 && nUntil >= 1
+			}
+		}
 		r.R.Check(okBound, P+".window.intake.bound."+role.Type, "E13 ArgIs: Validate's second argument is bound(signedData.AnchorFrom, signedData.AnchorUntil)",
 			core.FuncName(f), r.where(f), "the same effective window must be what intake hands to the time validator", det, det)
 	}
@@ -587,4 +665,14 @@ func (r *Run) checkApplierWindow(P string, appl map[string]*ssa.Function, window
 			core.FuncName(f), r.where(f), "without the test the operation takes effect at any anchoring time", "window test called with the signed window and the transaction time", "no call receives (AnchorFrom, AnchorUntil, TransactionTime)")
 	}
 	r.R.Floor(P+".window.tested.floor", "instance floor", wCalls, 3, "window-test call sites in the appliers")
+}
+
+// firstValidateFrom: the `from` argument of the (first) TimeValidator.Validate call of f.
+func firstValidateFrom(r *Run, f *ssa.Function) ssa.Value {
+	for _, c := range r.callsIn(f, "TimeValidator.Validate") {
+		if as := core.CallArgs(c.Common()); len(as) >= 2 {
+			return as[1]
+		}
+	}
+	return nil
 }
